@@ -12,12 +12,13 @@ Definition oversize (h : hdr) : bool := MAX_BUFFER_SIZE + BUFFER_HEADER_SIZE <? 
 Definition is_forget (h : hdr) : bool := (h_opcode h =? 2) || (h_opcode h =? 42).
 Definition on_fusedev (k : transport) : bool := match k with FuseDev => true | Virtio => false end.
 
-(* D11c  the async gate refuses a reply capacity below an out header before dispatch (every opcode, also FORGET)
+(* One disjunct per defect, each guarded by the bit of the [shape] that stands for it:
+   D11c  the async gate refuses a reply capacity below an out header before dispatch (every opcode, also FORGET)
    D11a  the async gate answers an oversized FORGET / BATCH_FORGET with ENOMEM
    D11b  async_write refuses size > MAX_BUFFER_SIZE with ENOMEM before calling the filesystem
    D14   FuseDevWriter::async_commit re-sends the buffer of an unbuffered writer: an error reply through
          async_do_reply_error on the unsplit fusedev writer is followed by a second, stale 16-byte write *)
-Definition known_class (cfg : config) (k : transport) (cap : N) (req : bytes) (fr : fsres) : bool :=
+Definition known_class_gen (sh : shape) (cfg : config) (k : transport) (cap : N) (req : bytes) (fr : fsres) : bool :=
   match read_obj 40 req with
   | None => false
   | Some (hb, r) =>
@@ -25,56 +26,61 @@ Definition known_class (cfg : config) (k : transport) (cap : N) (req : bytes) (f
     match cfg_remap cfg with
     | RemapFail => false
     | RemapOk _ _ =>
-      (cap <? OUT_HDR)
-      || (oversize h && is_forget h)
-      || (negb (oversize h) && (h_opcode h =? 16) && big_write r)
-      || (on_fusedev k && is_unsplit_err (snd (fst (async_decide cfg req fr cap))))
+      (sh_gate_capacity sh && negb (oversize h) && (cap <? OUT_HDR))
+      || (negb (sh_gate_exempts_forget sh) && oversize h && is_forget h)
+      || (sh_write_gate sh && negb (oversize h) && (h_opcode h =? 16) && big_write r)
+      || (negb (sh_commit_skips sh) && on_fusedev k && (OUT_HDR <=? cap)
+          && is_unsplit_err (snd (fst (async_decide sh cfg req fr cap))))
     end
   end.
+
+Definition known_class := known_class_gen code_shape.
 
 (* ------------------------------------------------------------------ decide *)
 Definition adec_to_sync (d : adecision * option N) : decision * option N :=
   (dec_to_sync (fst d), snd d).
 
-Lemma decide_rel cfg req fr cap :
+Lemma decide_rel sh cfg req fr cap :
   async_expressible fr = true ->
   (forall hb r du dg, read_obj 40 req = Some (hb, r) -> cfg_remap cfg = RemapOk du dg ->
-     (cap <? OUT_HDR) = false /\
-     (oversize (parse_hdr hb) && is_forget (parse_hdr hb)) = false /\
-     (negb (oversize (parse_hdr hb)) && (h_opcode (parse_hdr hb) =? 16) && big_write r) = false) ->
-  adec_to_sync (async_decide cfg req fr cap) = decide cfg req fr cap.
+     (sh_gate_capacity sh && negb (oversize (parse_hdr hb)) && (cap <? OUT_HDR)) = false /\
+     (negb (sh_gate_exempts_forget sh) && oversize (parse_hdr hb) && is_forget (parse_hdr hb)) = false /\
+     (sh_write_gate sh && negb (oversize (parse_hdr hb)) && (h_opcode (parse_hdr hb) =? 16) && big_write r) = false) ->
+  adec_to_sync (async_decide sh cfg req fr cap) = decide cfg req fr cap.
 Proof.
   intros Hx Hk. unfold async_decide, decide.
   destruct (read_obj 40 req) as [[hb r]|] eqn:E; [|reflexivity].
   destruct (cfg_remap cfg) as [du dg|] eqn:R; [|reflexivity].
   destruct (Hk hb r du dg eq_refl eq_refl) as [Hcap [Hfg Hwr]]. clear Hk.
   set (h := parse_hdr hb) in *.
-  rewrite Hcap, orb_false_r.
-  fold (oversize h). unfold is_forget in Hfg.
+  fold (oversize h). fold (is_forget h).
   destruct (oversize h) eqn:Ov.
-  - cbn [andb] in Hfg. rewrite Hfg. reflexivity.
-  - destruct (h_opcode h =? 26) eqn:I.
+  - rewrite andb_true_r in Hfg.
+    destruct (is_forget h) eqn:Fg.
+    + rewrite andb_true_r in Hfg. apply negb_false_iff in Hfg. rewrite Hfg. reflexivity.
+    + rewrite andb_false_r. reflexivity.
+  - cbn [negb] in Hcap, Hwr. rewrite andb_true_r in Hcap, Hwr. rewrite Hcap.
+    destruct (h_opcode h =? 26) eqn:I.
     + destruct (do_init cfg h r fr) as [[cs a] m]. reflexivity.
-    + cbn [negb andb] in Hwr.
-      assert (Hw : h_opcode h = 16 -> big_write r = false).
-      { intro O. rewrite O in Hwr. exact Hwr. }
-      pose proof (async_handler_rel cfg h
+    + assert (Hw : h_opcode h = 16 -> (sh_write_gate sh && big_write r) = false).
+      { intro O. rewrite O in Hwr. cbn [N.eqb Pos.eqb] in Hwr. rewrite andb_true_r in Hwr. exact Hwr. }
+      pose proof (async_handler_rel sh cfg h
                     ((h_uid h + du) mod 4294967296, (h_gid h + dg) mod 4294967296, h_pid h) r fr cap Hx Hw) as A.
       unfold dec_to_sync in A.
-      destruct (async_handler cfg h _ r fr cap) as [cs aa].
+      destruct (async_handler sh cfg h _ r fr cap) as [cs aa].
       destruct (handler cfg h _ r fr cap) as [cs' a'].
       cbn [fst snd] in A. inversion A; subst. reflexivity.
 Qed.
 
 (* ------------------------------------------------------------------ handle *)
-Lemma known_false_parts cfg k cap req fr : known_class cfg k cap req fr = false ->
+Lemma known_false_parts sh cfg k cap req fr : known_class_gen sh cfg k cap req fr = false ->
   (forall hb r du dg, read_obj 40 req = Some (hb, r) -> cfg_remap cfg = RemapOk du dg ->
-     (cap <? OUT_HDR) = false /\
-     (oversize (parse_hdr hb) && is_forget (parse_hdr hb)) = false /\
-     (negb (oversize (parse_hdr hb)) && (h_opcode (parse_hdr hb) =? 16) && big_write r) = false) /\
-  (k = Virtio \/ is_unsplit_err (snd (fst (async_decide cfg req fr cap))) = false).
+     (sh_gate_capacity sh && negb (oversize (parse_hdr hb)) && (cap <? OUT_HDR)) = false /\
+     (negb (sh_gate_exempts_forget sh) && oversize (parse_hdr hb) && is_forget (parse_hdr hb)) = false /\
+     (sh_write_gate sh && negb (oversize (parse_hdr hb)) && (h_opcode (parse_hdr hb) =? 16) && big_write r) = false) /\
+  (k = Virtio \/ is_unsplit_err (snd (fst (async_decide sh cfg req fr cap))) = false \/ cap < 16 \/ sh_commit_skips sh = true).
 Proof.
-  unfold known_class. intro H.
+  unfold known_class_gen. intro H.
   destruct (read_obj 40 req) as [[hb r]|] eqn:E.
   - destruct (cfg_remap cfg) as [du dg|] eqn:R.
     + apply orb_false_elim in H. destruct H as [H H4].
@@ -82,27 +88,48 @@ Proof.
       apply orb_false_elim in H. destruct H as [H1 H2].
       split.
       * intros hb' r' du' dg' E' _. inversion E'; subst. auto.
-      * apply andb_false_elim in H4. destruct H4 as [H4|H4]; [|right; exact H4].
-        left. destruct k; [discriminate H4 | reflexivity].
-    + split; [intros; discriminate|].
-      right. unfold async_decide. rewrite E, R. reflexivity.
-  - split; [intros; discriminate|].
-    right. unfold async_decide. rewrite E. reflexivity.
+      * apply andb_false_elim in H4. destruct H4 as [H4|H4]; [|right; left; exact H4].
+        apply andb_false_elim in H4. destruct H4 as [H4|H4].
+        -- apply andb_false_elim in H4. destruct H4 as [H4|H4].
+           ++ right; right; right. apply negb_false_iff. exact H4.
+           ++ left. destruct k; [discriminate H4 | reflexivity].
+        -- right; right; left. apply N.leb_gt in H4. unfold OUT_HDR in H4. exact H4.
+    + split; [intros ? ? ? ? _ X; discriminate X|].
+      right; left. unfold async_decide. rewrite E, R. reflexivity.
+  - split; [intros ? ? ? ? X; discriminate X|].
+    right; left. unfold async_decide. rewrite E. reflexivity.
 Qed.
 
+Theorem async_handle_gen_eq sh cfg k cap buf0 req fr :
+  async_expressible fr = true -> known_class_gen sh cfg k cap req fr = false ->
+  async_handle_gen sh cfg k cap buf0 req fr = handle cfg k cap req fr.
+Proof.
+  intros Hx Hk. destruct (known_false_parts _ _ _ _ _ _ Hk) as [Hp Hu].
+  pose proof (decide_rel sh cfg req fr cap Hx Hp) as D.
+  unfold async_handle_gen, handle.
+  destruct (async_decide sh cfg req fr cap) as [[cs aa] m].
+  destruct (decide cfg req fr cap) as [[cs' a'] m'].
+  unfold adec_to_sync, dec_to_sync in D. cbn [fst snd] in D, Hu. inversion D; subst.
+  rewrite aperform_eq; [reflexivity | exact Hu].
+Qed.
+
+(* the code as it is *)
 Theorem async_handle_eq cfg k cap buf0 req fr :
   async_expressible fr = true -> known_class cfg k cap req fr = false ->
   async_handle cfg k cap buf0 req fr = handle cfg k cap req fr.
+Proof. apply async_handle_gen_eq. Qed.
+
+(* the code after the three proposed patches: the class is empty and the full statement holds *)
+Lemma known_class_fixed_empty cfg k cap req fr : known_class_gen fixed_shape cfg k cap req fr = false.
 Proof.
-  intros Hx Hk. destruct (known_false_parts _ _ _ _ _ Hk) as [Hp Hu].
-  pose proof (decide_rel cfg req fr cap Hx Hp) as D.
-  unfold async_handle, handle.
-  destruct (async_decide cfg req fr cap) as [[cs aa] m].
-  destruct (decide cfg req fr cap) as [[cs' a'] m'].
-  unfold adec_to_sync, dec_to_sync in D. cbn [fst snd] in D, Hu. inversion D; subst.
-  rewrite aperform_eq; [reflexivity|].
-  destruct Hu as [Hu|Hu]; [left; exact Hu | right; left; exact Hu].
+  unfold known_class_gen. destruct (read_obj 40 req) as [[hb r]|]; [|reflexivity].
+  destruct (cfg_remap cfg); reflexivity.
 Qed.
+
+Theorem async_handle_fixed_eq cfg k cap buf0 req fr :
+  async_expressible fr = true ->
+  async_handle_gen fixed_shape cfg k cap buf0 req fr = handle cfg k cap req fr.
+Proof. intro Hx. apply async_handle_gen_eq; [exact Hx | apply known_class_fixed_empty]. Qed.
 
 Definition C20_full_stmt : Prop :=
   forall cfg k cap buf0 req fr, async_expressible fr = true ->
@@ -117,7 +144,7 @@ Proof. intros Hx Hk. rewrite (async_handle_eq _ _ _ _ _ _ Hx Hk). reflexivity. Q
 Theorem async_handle_no_panic cfg k cap buf0 req fr :
   o_panic (snd (fst (async_handle cfg k cap buf0 req fr))) = false.
 Proof.
-  unfold async_handle. destruct (async_decide cfg req fr cap) as [[cs a] m]. cbn [fst snd].
+  unfold async_handle, async_handle_gen. destruct (async_decide code_shape cfg req fr cap) as [[cs a] m]. cbn [fst snd].
   apply async_perform_no_panic.
 Qed.
 
